@@ -564,6 +564,19 @@ func runC02(c *eng.Ctx) {
 	runC02NamedInitializers(c, next)
 	runC02BuildTimeScope(c, next)
 	runC02BackgroundDuringCreation(c, next)
+	// scoped registrations whose constructors are distinct function values sharing code (closures of
+	// one literal, method values, MakeFunc; variadic ones among them): the scope's instance of each
+	// registration is the output of ITS constructor, which ran once
+	if idx, mine := next(); mine {
+		c.R.Begin(idx)
+		fs, n := core.RunFuncKinds("scoped")
+		for _, f := range fs {
+			c.R.Violation(eng.Violation{Prop: "C02", Clause: "two-constructions-in-one-scope", Sig: "C02/two-constructions-in-one-scope:scoped:function-value-kind:" + f.Case, Case: idx, CaseID: "funckind-" + f.Case,
+				Detail: "scoped registrations whose constructors share code: the slot of one registration was filled by another registration's constructor (which thereby ran more than once for the scope, while the registration's own never ran): " + f.Detail})
+		}
+		c.R.Count("function_value_kind_resolutions", int64(n))
+		c.R.End(idx, eng.Hash("c02-funckinds"), n > 0)
+	}
 	// several resolutions of one scoped service in flight when the scope is closed
 	runWaiters(c, "C02", next)
 }
